@@ -680,12 +680,12 @@ theorem lk_step_xfers_other {hash : List Nat → List Nat} {s s' : State} {e : E
 
 /-- the accepted transactions of a history, each with the state it ran in and its outputs
     (mirrors `run`: rejected transactions leave no trace) -/
-def runLog (hash : List Nat → List Nat) : State → List (Env × Call) → List (State × Env × Call × Out)
+def lk_runLog (hash : List Nat → List Nat) : State → List (Env × Call) → List (State × Env × Call × Out)
   | _, [] => []
   | s, (e, c) :: rest =>
     match step hash s e c with
-    | .ok (s', o) => (s, e, c, o) :: runLog hash s' rest
-    | .error _ => runLog hash s rest
+    | .ok (s', o) => (s, e, c, o) :: lk_runLog hash s' rest
+    | .error _ => lk_runLog hash s rest
 
 /-- amount locked for destination `a` by a list of lock calls -/
 def lockedFor (a : Nat) : List (Nat × Nat × Nat) → Nat
@@ -802,11 +802,11 @@ theorem lk_step_received {hash : List Nat → List Nat} {s s' : State} {e : Env}
 theorem lk_total_after_claim (hash : List Nat → List Nat) (a : Nat) :
     ∀ (hist : List (Env × Call)) (s : State), LkStatic s → a ≠ s.owner → a ≠ s.lockAddr →
       s.claimed a = true →
-      totalReceived s.lpTok a (runLog hash s hist) = 0 ∧
-      ∀ x ∈ runLog hash s hist, isClaimBy a x = false
+      totalReceived s.lpTok a (lk_runLog hash s hist) = 0 ∧
+      ∀ x ∈ lk_runLog hash s hist, isClaimBy a x = false
   | [], _, _, _, _, _ => ⟨rfl, fun _ hx => by cases hx⟩
   | (e, c) :: rest, s, hS, ha1, ha2, hcl => by
-    unfold runLog
+    unfold lk_runLog
     cases hx : step hash s e c with
     | error err => exact lk_total_after_claim hash a rest s hS ha1 ha2 hcl
     | ok q =>
@@ -828,7 +828,7 @@ theorem lk_total_after_claim (hash : List Nat → List Nat) (a : Nat) :
       rw [hnot] at hrec
       rw [hlp] at ih
       refine ⟨?_, ?_⟩
-      · show received s.lpTok a o + totalReceived s.lpTok a (runLog hash s' rest) = 0
+      · show received s.lpTok a o + totalReceived s.lpTok a (lk_runLog hash s' rest) = 0
         rw [hrec, ih.1]; simp
       · intro x hxm
         rcases List.mem_cons.mp hxm with rfl | hxm
@@ -842,14 +842,14 @@ theorem lk_total_after_claim (hash : List Nat → List Nat) (a : Nat) :
     accepted claim per address -/
 theorem lk_total_received (hash : List Nat → List Nat) (a : Nat) :
     ∀ (hist : List (Env × Call)) (s : State), LkStatic s → a ≠ s.owner → a ≠ s.lockAddr →
-      totalReceived s.lpTok a (runLog hash s hist) =
-        (match (runLog hash s hist).find? (isClaimBy a) with
+      totalReceived s.lpTok a (lk_runLog hash s hist) =
+        (match (lk_runLog hash s hist).find? (isClaimBy a) with
          | some x => x.1.perTicket * winCountOf x.1 a
          | none => 0) ∧
-      ((runLog hash s hist).filter (isClaimBy a)).length ≤ 1
+      ((lk_runLog hash s hist).filter (isClaimBy a)).length ≤ 1
   | [], _, _, _, _ => ⟨rfl, Nat.zero_le _⟩
   | (e, c) :: rest, s, hS, ha1, ha2 => by
-    unfold runLog
+    unfold lk_runLog
     cases hx : step hash s e c with
     | error err => exact lk_total_received hash a rest s hS ha1 ha2
     | ok q =>
@@ -859,7 +859,7 @@ theorem lk_total_received (hash : List Nat → List Nat) (a : Nat) :
       have ha1' : a ≠ s'.owner := by rw [lk_step_owner hx]; exact ha1
       have ha2' : a ≠ s'.lockAddr := by rw [(pl_step_lockAddr hx).1]; exact ha2
       have hrec := lk_step_received hS ha1 ha2 hx
-      show received s.lpTok a o + totalReceived s.lpTok a (runLog hash s' rest) = _ ∧ _
+      show received s.lpTok a o + totalReceived s.lpTok a (lk_runLog hash s' rest) = _ ∧ _
       cases hb : isClaimBy a (s, e, c, o)
       · obtain ⟨ih1, ih2⟩ := lk_total_received hash a rest s' hS' ha1' ha2'
         rw [hlp] at ih1
@@ -876,7 +876,7 @@ theorem lk_total_received (hash : List Nat → List Nat) (a : Nat) :
         rw [hb] at hrec
         rw [hrec, k1, List.find?_cons_of_pos (by simp [hb]), List.filter_cons_of_pos (by simp [hb])]
         refine ⟨by simp, ?_⟩
-        have : (runLog hash s' rest).filter (isClaimBy a) = [] := by
+        have : (lk_runLog hash s' rest).filter (isClaimBy a) = [] := by
           rw [List.filter_eq_nil_iff]
           intro x hxm
           rw [k2 x hxm]; simp
@@ -896,16 +896,16 @@ theorem lk_run_cons_err {hash : List Nat → List Nat} {s : State} {e : Env} {c 
   conv => lhs; unfold run
   rw [h]
 
-theorem runLog_cons_ok {hash : List Nat → List Nat} {s s' : State} {e : Env} {c : Call} {o : Out}
+theorem lk_runLog_cons_ok {hash : List Nat → List Nat} {s s' : State} {e : Env} {c : Call} {o : Out}
     (h : step hash s e c = .ok (s', o)) (l : List (Env × Call)) :
-    runLog hash s ((e, c) :: l) = (s, e, c, o) :: runLog hash s' l := by
-  conv => lhs; unfold runLog
+    lk_runLog hash s ((e, c) :: l) = (s, e, c, o) :: lk_runLog hash s' l := by
+  conv => lhs; unfold lk_runLog
   rw [h]
 
-theorem runLog_cons_err {hash : List Nat → List Nat} {s : State} {e : Env} {c : Call} {err : Err}
+theorem lk_runLog_cons_err {hash : List Nat → List Nat} {s : State} {e : Env} {c : Call} {err : Err}
     (h : step hash s e c = .error err) (l : List (Env × Call)) :
-    runLog hash s ((e, c) :: l) = runLog hash s l := by
-  conv => lhs; unfold runLog
+    lk_runLog hash s ((e, c) :: l) = lk_runLog hash s l := by
+  conv => lhs; unfold lk_runLog
   rw [h]
 
 theorem lk_run_append (hash : List Nat → List Nat) :
@@ -920,34 +920,34 @@ theorem lk_run_append (hash : List Nat → List Nat) :
       obtain ⟨s', o⟩ := q
       rw [lk_run_cons_ok hx, lk_run_cons_ok hx]; exact lk_run_append hash rest h2 s'
 
-theorem runLog_append (hash : List Nat → List Nat) :
+theorem lk_runLog_append (hash : List Nat → List Nat) :
     ∀ (h1 h2 : List (Env × Call)) (s : State),
-      runLog hash s (h1 ++ h2) = runLog hash s h1 ++ runLog hash (run hash s h1) h2
+      lk_runLog hash s (h1 ++ h2) = lk_runLog hash s h1 ++ lk_runLog hash (run hash s h1) h2
   | [], _, _ => rfl
   | (e, c) :: rest, h2, s => by
     simp only [List.cons_append]
     cases hx : step hash s e c with
     | error err =>
-      rw [runLog_cons_err hx, runLog_cons_err hx, lk_run_cons_err hx]
-      exact runLog_append hash rest h2 s
+      rw [lk_runLog_cons_err hx, lk_runLog_cons_err hx, lk_run_cons_err hx]
+      exact lk_runLog_append hash rest h2 s
     | ok q =>
       obtain ⟨s', o⟩ := q
-      rw [runLog_cons_ok hx, runLog_cons_ok hx, lk_run_cons_ok hx, List.cons_append,
-        runLog_append hash rest h2 s']
+      rw [lk_runLog_cons_ok hx, lk_runLog_cons_ok hx, lk_run_cons_ok hx, List.cons_append,
+        lk_runLog_append hash rest h2 s']
 
 /-- every entry of the log is an accepted transaction of the history, run in the state the
     preceding part of the history leads to -/
-theorem runLog_mem (hash : List Nat → List Nat) :
-    ∀ (hist : List (Env × Call)) (s : State) (x : State × Env × Call × Out), x ∈ runLog hash s hist →
+theorem lk_runLog_mem (hash : List Nat → List Nat) :
+    ∀ (hist : List (Env × Call)) (s : State) (x : State × Env × Call × Out), x ∈ lk_runLog hash s hist →
       ∃ h1 h2 s', hist = h1 ++ (x.2.1, x.2.2.1) :: h2 ∧ x.1 = run hash s h1 ∧
         step hash x.1 x.2.1 x.2.2.1 = .ok (s', x.2.2.2)
   | [], _, _, hx => by cases hx
   | (e, c) :: rest, s, x, hx => by
-    unfold runLog at hx
+    unfold lk_runLog at hx
     cases hs : step hash s e c with
     | error err =>
       rw [hs] at hx
-      obtain ⟨h1, h2, s', k1, k2, k3⟩ := runLog_mem hash rest s x hx
+      obtain ⟨h1, h2, s', k1, k2, k3⟩ := lk_runLog_mem hash rest s x hx
       refine ⟨(e, c) :: h1, h2, s', by rw [k1]; rfl, ?_, k3⟩
       rw [k2]
       conv => rhs; unfold run
@@ -957,7 +957,7 @@ theorem runLog_mem (hash : List Nat → List Nat) :
       rw [hs] at hx
       rcases List.mem_cons.mp hx with rfl | hx
       · exact ⟨[], rest, s1, rfl, rfl, hs⟩
-      · obtain ⟨h1, h2, s', k1, k2, k3⟩ := runLog_mem hash rest s1 x hx
+      · obtain ⟨h1, h2, s', k1, k2, k3⟩ := lk_runLog_mem hash rest s1 x hx
         refine ⟨(e, c) :: h1, h2, s', by rw [k1]; rfl, ?_, k3⟩
         rw [k2]
         conv => rhs; unfold run
@@ -972,10 +972,10 @@ theorem totalReceived_append (lp a : Nat) (l1 l2 : List (State × Env × Call ×
 /-- no accepted claim by `a` in the log: he receives nothing -/
 theorem lk_total_no_claim (hash : List Nat → List Nat) (a : Nat) (hist : List (Env × Call)) (s : State)
     (hS : LkStatic s) (ha1 : a ≠ s.owner) (ha2 : a ≠ s.lockAddr)
-    (hno : ∀ x ∈ runLog hash s hist, isClaimBy a x = false) :
-    totalReceived s.lpTok a (runLog hash s hist) = 0 := by
+    (hno : ∀ x ∈ lk_runLog hash s hist, isClaimBy a x = false) :
+    totalReceived s.lpTok a (lk_runLog hash s hist) = 0 := by
   rw [(lk_total_received hash a hist s hS ha1 ha2).1]
-  have : (runLog hash s hist).find? (isClaimBy a) = none := by
+  have : (lk_runLog hash s hist).find? (isClaimBy a) = none := by
     rw [List.find?_eq_none]
     intro x hx
     rw [hno x hx]; simp
@@ -983,9 +983,9 @@ theorem lk_total_no_claim (hash : List Nat → List Nat) (a : Nat) (hist : List 
 
 /-- an accepted claim by `a` somewhere in the history marks him as claimed at its end -/
 theorem lk_claimed_of_log (hash : List Nat → List Nat) (a : Nat) (hist : List (Env × Call)) (s : State)
-    (x : State × Env × Call × Out) (hx : x ∈ runLog hash s hist) (hb : isClaimBy a x = true) :
+    (x : State × Env × Call × Out) (hx : x ∈ lk_runLog hash s hist) (hb : isClaimBy a x = true) :
     (run hash s hist).claimed a = true := by
-  obtain ⟨h1, h2, s', k1, k2, k3⟩ := runLog_mem hash hist s x hx
+  obtain ⟨h1, h2, s', k1, k2, k3⟩ := lk_runLog_mem hash hist s x hx
   obtain ⟨xs, xe, xc, xo⟩ := x
   simp only at k1 k2 k3
   cases xc <;> simp only [isClaimBy, Bool.false_eq_true] at hb
@@ -1002,14 +1002,14 @@ theorem lk_claimed_of_log (hash : List Nat → List Nat) (a : Nat) (hist : List 
 theorem lk_total_of_claim (hash : List Nat → List Nat) (a : Nat) (s : State) (hS : LkStatic s)
     (ha1 : a ≠ s.owner) (ha2 : a ≠ s.lockAddr) (h1 h2 : List (Env × Call)) (e : Env) (s2 : State)
     (o : Out) (hca : e.caller = a) (hs : step hash (run hash s h1) e .claim = .ok (s2, o)) :
-    totalReceived s.lpTok a (runLog hash s (h1 ++ (e, .claim) :: h2))
+    totalReceived s.lpTok a (lk_runLog hash s (h1 ++ (e, .claim) :: h2))
       = (run hash s h1).perTicket * winCountOf (run hash s h1) a ∧
-    (∀ x ∈ runLog hash s h1, isClaimBy a x = false) ∧
-    (∀ x ∈ runLog hash s2 h2, isClaimBy a x = false) := by
+    (∀ x ∈ lk_runLog hash s h1, isClaimBy a x = false) ∧
+    (∀ x ∈ lk_runLog hash s2 h2, isClaimBy a x = false) := by
   obtain ⟨t1, t2, t3, t4, t5, t6⟩ := lk_run_terms hash s h1
   have hS1 : LkStatic (run hash s h1) :=
     lk_run_keeps hash LkStatic (fun _ _ _ _ _ hx hp => lk_step_static hp hx) h1 s hS
-  have hno1 : ∀ x ∈ runLog hash s h1, isClaimBy a x = false := by
+  have hno1 : ∀ x ∈ lk_runLog hash s h1, isClaimBy a x = false := by
     intro x hx
     cases hb : isClaimBy a x
     · rfl
@@ -1030,10 +1030,10 @@ theorem lk_total_of_claim (hash : List Nat → List Nat) (a : Nat) (s : State) (
   have hb : isClaimBy a (run hash s h1, e, Call.claim, o) = true := by simp [isClaimBy, hca]
   rw [hb, if_pos rfl, t5] at hrec
   refine ⟨?_, hno1, k2⟩
-  rw [runLog_append, totalReceived_append, lk_total_no_claim hash a h1 s hS ha1 ha2 hno1]
-  conv => lhs; unfold runLog
+  rw [lk_runLog_append, totalReceived_append, lk_total_no_claim hash a h1 s hS ha1 ha2 hno1]
+  conv => lhs; unfold lk_runLog
   rw [hs]
-  show 0 + (received s.lpTok a o + totalReceived s.lpTok a (runLog hash s2 h2)) = _
+  show 0 + (received s.lpTok a o + totalReceived s.lpTok a (lk_runLog hash s2 h2)) = _
   rw [hrec, k1]
   omega
 
@@ -1101,6 +1101,6 @@ end LP
 #print axioms LP.lk_step_received
 #print axioms LP.lk_total_received
 #print axioms LP.lk_total_of_claim
-#print axioms LP.runLog_mem
+#print axioms LP.lk_runLog_mem
 #print axioms LP.lk_total_after_claim
 #print axioms LP.lk_v1_reach_noConf
